@@ -42,7 +42,7 @@ PROPS = {
     'C06': dict(units=['join'], witness='storage',
                 assumptions=[HEADROOM] + STORAGE_ASSUME + [
                     "REDUCED: hibitset's bit-set family (BitSetLike::iter ascending and duplicate-free, BitSetAnd/Not/All/Or views, layered skip logic) is an assumed contract: the 'indices straddling layer boundaries' part of the quantifier lives entirely in that dependency",
-                    "REDUCED: tuple members (define_open!) and BitAnd for arities > 1 (bitset_and!) and the bit-set members (define_bit_join!) are macro-generated and not under contract; the one-member BitAnd and every non-macro member are",
+                    "macro-generated impls (define_open!, bitset_and!, define_bit_join!) are taken from rustc's own expansion on every run: Join/LendJoin tuples of arity 1-4, BitAnd of arity 2-4, bit-set members BitSet/&BitSet/BitSetNot/BitSetAnd/BitSetOr are under contract; higher arities (the macro is uniform), ParJoin impls and the remaining bit-set members are not; tuple_utils::Split is a trusted stub",
                     "N8: LendJoin's GAT Type<'next> is collapsed to a plain associated type; the `&mut Storage` lending member is therefore checked as free functions with the same clauses",
                     "JoinLendIter::for_each (closure capturing &mut) and the `&mut Storage` non-lending Join member (SharedGetMutOnly raw sharing) are not under contract"]),
     'C16': dict(units=['changeset'], witness='misc',
